@@ -43,17 +43,18 @@ Definition agrees (view ctl : record) : Prop :=
   r_run ctl = r_run view /\ r_status ctl = r_status view /\ r_obj ctl = r_obj view /\ r_ver ctl = r_ver view.
 (* a controller write from inside / after the function: same run, status and object as the record the function saw, one version on *)
 Definition expl_ctl (view r : record) : Prop :=
-  r_run r = r_run view /\ r_status r = r_status view /\ r_obj r = r_obj view /\ r_ver r = r_ver view + 1.
+  r_run r = r_run view /\ r_status r = r_status view /\ r_obj r = r_obj view /\ r_ver r = r_ver view + 1 /\ r_state r <> RSDataDeleted.
 (* the updater's write: the failure-free outcome of the configured function on the record it saw *)
 Definition expl_adv (u : ufun) (view : record) (z : Z) (r : record) : Prop :=
-  r_run r = r_run view /\ r_status r = z /\ r_ver r = r_ver view + 1 /\
+  r_run r = r_run view /\ r_status r = z /\ r_ver r = r_ver view + 1 /\ (r_state r = RSRunning \/ r_state r = RSCompleted) /\
   exists b st mark, configured u b st /\ final_beh b (obj_seed (r_obj view)) = (mark, ARet z) /\
                     r_obj r = (if mark then mark_obj (r_obj view) st else r_obj view).
 
 (* a write made from the record [x] a Lookup answered with: same run and status, one version on, the same object — or the
    data-deletion rewrite (run-state controller through the API, paused-records retry, delete consumer, the inserter's pause) *)
 Definition plain_of (x r : record) : Prop :=
-  r_run r = r_run x /\ r_status r = r_status x /\ r_ver r = r_ver x + 1 /\ (r_obj r = r_obj x \/ r_state r = RSDataDeleted).
+  r_run r = r_run x /\ r_status r = r_status x /\ r_ver r = r_ver x + 1 /\
+  ((r_obj r = r_obj x /\ r_state r <> RSDataDeleted) \/ (r_state r = RSDataDeleted /\ r_obj r = scrub_obj c (r_obj x))).
 Definition src_of (k : tok) (r : record) : Prop :=
   match k with TLookup _ _ _ (Some x) => plain_of x r | _ => False end.
 
@@ -97,11 +98,11 @@ Lemma configured_step_fn u b st : configured u b st -> is_step_fn u = true.
 Proof. destruct u; cbn; intros H; try destruct H; reflexivity. Qed.
 
 Lemma ctl_do_adv ctl target reason s u view pl :
-  is_step_fn u = true -> adv_ok (o_trace s) -> top_user u view pl s -> agrees view ctl ->
+  target <> RSDataDeleted -> is_step_fn u = true -> adv_ok (o_trace s) -> top_user u view pl s -> agrees view ctl ->
   adv_ok (o_trace (snd (ctl_do c ctl target reason s))).
 Proof.
-  intros Hu Hs Htop (E1 & E2 & E3 & E4). unfold ctl_do. destruct (ctl_update ctl target reason) as [r'|] eqn:Eu; [|exact Hs].
-  assert (F : r_run r' = r_run ctl /\ r_status r' = r_status ctl /\ r_obj r' = r_obj ctl /\ r_ver r' = r_ver ctl + 1).
+  intros Htg Hu Hs Htop (E1 & E2 & E3 & E4). unfold ctl_do. destruct (ctl_update ctl target reason) as [r'|] eqn:Eu; [|exact Hs].
+  assert (F : r_run r' = r_run ctl /\ r_status r' = r_status ctl /\ r_obj r' = r_obj ctl /\ r_ver r' = r_ver ctl + 1 /\ r_state r' = target).
   { unfold ctl_update in Eu. destruct (rs_table _ _); [|discriminate]. inversion Eu. cbn. auto. }
   unfold bind, catch, p_store.
   match goal with |- context [prim ?k ?ctx ?T ?E ?X s] => destruct (prim_ret_spec' k ctx T E s) as (d & s1 & R & Tr & D1) end.
@@ -110,7 +111,7 @@ Proof.
   { rewrite Tr. destruct (o_dead s1) eqn:Ed; [exact Hs|].
     assert (Hd0 : o_dead s = false) by (destruct (o_dead s); [discriminate (D1 eq_refl)|reflexivity]).
     destruct (Htop Hd0) as (pers & now & tr & Et). rewrite Et. apply av_ctl; [exact Hu| |rewrite <- Et; exact Hs].
-    destruct (stamp_fields3 (o_w s) r') as (S1 & S2 & S3). destruct F as (F1 & F2 & F3 & F4). unfold expl_ctl. rewrite S1, S2, S3, stamp_ver. repeat split; congruence. }
+    destruct (stamp_fields3 (o_w s) r') as (S1 & S2 & S3). destruct F as (F1 & F2 & F3 & F4 & F5). unfold expl_ctl. rewrite S1, S2, S3, stamp_ver, (stamp_state c). repeat split; congruence. }
   destruct d; exact H1.
 Qed.
 
@@ -159,14 +160,14 @@ Proof.
   - unfold ret in H. inversion H; subst. split; [exact H2|]. intros obj' oc ctl Hr. inversion Hr; subst. cbn beta iota.
     left. split; [reflexivity|eauto].
   - unfold bind at 1 in H.
-    pose proof (ctl_do_adv view RSPaused 1 s2 u view UPauseA (configured_step_fn _ _ _ Hc) H2 T2 (conj eq_refl (conj eq_refl (conj eq_refl eq_refl)))) as H3.
+    pose proof (ctl_do_adv view RSPaused 1 s2 u view UPauseA ltac:(discriminate) (configured_step_fn _ _ _ Hc) H2 T2 (conj eq_refl (conj eq_refl (conj eq_refl eq_refl)))) as H3.
     destruct (ctl_do c view RSPaused 1 s2) as [[x|e] s3] eqn:E3; cbn [fst snd] in *; [|inversion H; subst; split; [exact H3|intros; discriminate]].
     unfold ret in H. inversion H; subst. split; [exact H3|]. intros obj' oc ctl Hr. inversion Hr; subst.
     destruct (ctl_do_shape _ _ _ _ _ _ E3 (or_introl eq_refl)) as [(Ex & -> & (e & Ee))|Hd].
     + rewrite Ee. left. rewrite Ex. split; [reflexivity|eauto].
     + destruct (fst x); [intros Hsk; discriminate|right; exact Hd].
   - unfold bind at 1 in H.
-    pose proof (ctl_do_adv view RSCancelled 3 s2 u view UCancelA (configured_step_fn _ _ _ Hc) H2 T2 (conj eq_refl (conj eq_refl (conj eq_refl eq_refl)))) as H3.
+    pose proof (ctl_do_adv view RSCancelled 3 s2 u view UCancelA ltac:(discriminate) (configured_step_fn _ _ _ Hc) H2 T2 (conj eq_refl (conj eq_refl (conj eq_refl eq_refl)))) as H3.
     destruct (ctl_do c view RSCancelled 3 s2) as [[x|e] s3] eqn:E3; cbn [fst snd] in *; [|inversion H; subst; split; [exact H3|intros; discriminate]].
     unfold ret in H. inversion H; subst. split; [exact H3|]. intros obj' oc ctl Hr. inversion Hr; subst.
     destruct (ctl_do_shape _ _ _ _ _ _ E3 (or_intror eq_refl)) as [(Ex & -> & (e & Ee))|Hd].
@@ -185,7 +186,7 @@ Proof.
   match goal with |- context [ctl_do c ctl RSPaused 2 ?sx] => set (s1 := sx) end.
   assert (H1 : adv_ok (o_trace (snd (ctl_do c ctl RSPaused 2 s1)))).
   { destruct Hc as [(-> & pl & Ht)|Hd].
-    - apply (ctl_do_adv view RSPaused 2 s1 u view pl); [exact Hu|exact Hs|exact Ht|repeat split].
+    - apply (ctl_do_adv view RSPaused 2 s1 u view pl); [discriminate|exact Hu|exact Hs|exact Ht|repeat split].
     - unfold ctl_do. rewrite (ctl_dead_no_pause ctl 2 Hd). exact Hs. }
   destruct (ctl_do c ctl RSPaused 2 s1) as [[x|er] s2]; cbn [snd] in *; [|exact H1].
   destruct (fst x); [|exact H1]. exact H1.
@@ -215,7 +216,8 @@ Proof.
   apply av_adv; [|rewrite <- Et, <- Tr; exact H1].
   destruct Hex as (b & st & mark & Hc & Hf & Ho).
   match goal with |- expl_adv _ _ _ (stamp c ?w ?r) => destruct (stamp_fields3 w r) as (S1 & S2 & S3) end.
-  unfold expl_adv. rewrite S1, S2, S3, stamp_ver. cbn. split; [reflexivity|]. split; [reflexivity|]. split; [reflexivity|]. exists b, st, mark. auto.
+  unfold expl_adv. rewrite S1, S2, S3, stamp_ver, (stamp_state c). cbn. split; [reflexivity|]. split; [reflexivity|]. split; [reflexivity|].
+  split; [destruct (is_terminal (ec_graph c) z); auto|]. exists b, st, mark. auto.
 Qed.
 
 Lemma find_first_in {A} (p : A -> bool) l x : find_first p l = Some x -> In x l /\ p x = true.
